@@ -144,16 +144,28 @@ pub struct MatcherIO<'a> {
     exit_code: i32,
     quit: bool,
     deps: &'a dyn Dependencies,
+    /// The starting point being walked, exactly as given on the command line.
+    starting_point: Option<&'a Path>,
 }
 
-impl MatcherIO<'_> {
-    pub fn new(deps: &dyn Dependencies) -> MatcherIO<'_> {
+impl<'a> MatcherIO<'a> {
+    pub fn new(deps: &'a dyn Dependencies) -> MatcherIO<'a> {
         MatcherIO {
             should_skip_dir: false,
             exit_code: 0,
             quit: false,
             deps,
+            starting_point: None,
         }
+    }
+
+    pub fn set_starting_point(&mut self, starting_point: &'a Path) {
+        self.starting_point = Some(starting_point);
+    }
+
+    #[must_use]
+    pub fn starting_point(&self) -> Option<&'a Path> {
+        self.starting_point
     }
 
     pub fn mark_current_dir_to_be_skipped(&mut self) {
